@@ -7,6 +7,7 @@ zone's v1 table as parsed independently by vlib/tzif.py.
 """
 import collections
 import datetime
+import re
 
 from . import common
 from .common import hex16, unhex16
@@ -169,6 +170,30 @@ def run(ctx):
                 if g != want:
                     fails.append((ops2[i], j, "%s: local %s is UTC %s per the system database, echse says %s"
                                   % (z, c[1][:6], inst_of_epoch(c[2])[:6], unhex16(g)[:6] if len(g) == 16 else g)))
+    # ---- the zone as events name it: DTSTART;TZID=...: and DTSTART;TZID="...": (a quoted parameter value, RFC 5545 3.2)
+    from . import p_strm
+    import zoneinfo as _zi
+    sexe = p_strm.build(ctx)
+    zs = rng.sample([z for z in zones_all if "/" in z and not z.startswith(("Etc/", "posix", "right"))], 24)
+    evops, evwant = [], []
+    for k, z in enumerate(zs):
+        y, mo, d, h = rng.randint(1975, 2036), rng.randint(1, 12), rng.randint(1, 28), rng.randint(4, 20)
+        try:
+            u = datetime.datetime(y, mo, d, h, 30, 0, tzinfo=_zi.ZoneInfo(z)).astimezone(datetime.timezone.utc)
+        except Exception:
+            continue
+        par = ('TZID="%s"' % z) if k % 2 else ("TZID=%s" % z)
+        cal = "BEGIN:VCALENDAR\nBEGIN:VEVENT\nUID:z%d\nSUMMARY:x\nDTSTART;%s:%04d%02d%02dT%02d3000\nEND:VEVENT\nEND:VCALENDAR\n" % (k, par, y, mo, d, h)
+        evops.append("p.occ %s 1" % cal.encode().hex())
+        evwant.append((z, par, hex16(u.year, u.month, u.day, u.hour, u.minute, u.second, 1023)))
+    evout, evst, _ = ctx.impl(sexe, evops)
+    for k, (z, par, want) in enumerate(evwant):
+        g = evout[k] if k < len(evout) else "<no answer>"
+        m_ = re.search(r"occ=([0-9a-f]{16})", g)
+        if not m_ or m_.group(1) != want:
+            fails.append((evops[k], 0, "an event with DTSTART;%s at a local time that is UTC %s per the system database occurs at %s"
+                          % (par, unhex16(want)[:6], unhex16(m_.group(1))[:6] if m_ else g[:80])))
+    ctx.cov["events_with_tzid_parameter"] = len(evops)
     # ---- many zones in one process: the instant's zone field has six bits
     import zoneinfo
     many = [z for z in zones_all if "/" in z and not z.startswith(("Etc/", "posix", "right"))]
